@@ -6,6 +6,7 @@ CONSTANTS
     Design = "temp"
     Policy = "trust"
     RenameAt = "written"
+    LossyNames = FALSE
     Memo = FALSE
     MaxClear = 0
     MaxExtra = 0
